@@ -2,10 +2,13 @@ package main
 
 import (
 	"time"
+	"verif/internal/ax"
 
 	"verif/internal/bx"
 	"verif/internal/harness"
+	"verif/internal/lx"
 	"verif/internal/mx"
+	"verif/internal/px"
 )
 
 const levelMC = "model_checking"
@@ -59,9 +62,19 @@ const sweepRuleTail = " Patterns: every AST with at most N nodes over 19 atoms, 
 
 func init() {
 	registry["C18"] = mx.SimdPlan
+	registry["C08"] = bx.C08Plan
+	registry["C09"] = bx.C09Plan
+	registry["C16"] = px.Plan
+	registry["C15"] = ax.Plan
+	registry["C17"] = lx.Plan
+	registry["C12"] = bx.C12Plan
+	registry["C10"] = c10Plan
 	sweepProp("C01", "Match/MatchString/MatchReader/package-level Match*/Engine.IsMatch compared with package regexp."+sweepRuleTail, true, false,
 		quickSweep, thoroughSweep, func(string) bx.PerHay {
-			return func(cx *bx.Ctx, h []byte, hi int) bool { k := bx.HayHash(h); return cx.OpsC01(h, k%64 == 3, len(h) <= 8 || k%8 == 3) }
+			return func(cx *bx.Ctx, h []byte, hi int) bool {
+				k := bx.HayHash(h)
+				return cx.OpsC01(h, k%64 == 3, len(h) <= 8 || k%8 == 3)
+			}
 		})
 	sweepProp("C02", "Find/FindString/FindIndex/FindStringIndex/FindReaderIndex/Engine.FindIndices/Engine.Find compared with package regexp."+sweepRuleTail, true, false,
 		quickSweep, thoroughSweep, func(string) bx.PerHay {
@@ -83,4 +96,61 @@ func init() {
 		q4, t4, func(string) bx.PerHay {
 			return func(cx *bx.Ctx, h []byte, hi int) bool { return cx.OpsC11(h) }
 		})
+}
+
+// c10Plan: the C01-C04 operations in leftmost-longest mode (Longest() and CompilePOSIX) against package regexp in
+// the same mode, preceded by the mode-isolation history exploration.
+func c10Plan(tier string) *harness.Plan {
+	q := bx.Tier{PN: 3, SK: 0, LASCII: 4, LUTF8: 3, LRaw: 3, EmbedW: 1, EmbedPN: 3, TokL: 3, TokN: 6, SeedEmbW: 1, SeedJ: []int{0, 33}, Modes: []string{"longest", "posix"}, Budget: 150 * time.Second}
+	t := bx.Tier{PN: 4, SK: 1, LASCII: 4, LBig: 3, LUTF8: 3, LRaw: 3, EmbedW: 1, EmbedPN: 3, TokL: 3, TokN: 6, SeedEmbW: 1, SeedJ: []int{0, 33}, Modes: []string{"longest", "posix"}, Budget: 40 * time.Minute}
+	sp := bx.NewSpace(sweepTier(tier, q, t))
+	body := func(cx *bx.Ctx, h []byte, hi int) bool {
+		k := bx.HayHash(h)
+		nt := cx.OpsC01(h, false, len(h) <= 8 || k%8 == 3)
+		cx.OpsC02(h)
+		cx.OpsC03(h)
+		cx.OpsC04(h, false)
+		return nt
+	}
+	plan := bx.SweepPlan(sp, levelMC, "The C01-C04 operations on values in leftmost-longest mode — obtained by Longest() and by CompilePOSIX (patterns std's POSIX parser accepts) — compared with package regexp in the same mode; plus mode isolation: every sequence of at most d operations from {Compile, Copy(i), Longest(i)} on mode-sensitive seeds, checking after each operation that every live value answers like its std twin."+sweepRuleTail, true, false, body, nil)
+	depth := 4
+	if tier == "thorough" {
+		depth = 6
+	}
+	iso := bx.C10IsoSeeds()
+	inner := plan.Run
+	nIso := len(iso)
+	plan.Units += nIso
+	plan.Run = func(w *harness.W, u int) {
+		if u < nIso {
+			bx.C10Isolation(w, iso[u], depth)
+			w.Sample(map[string]any{"kind": "mode-isolation history", "pattern": iso[u], "depth": depth, "ops": []string{"compile", "copy(i)", "longest(i)"}})
+			return
+		}
+		inner(w, u-nIso)
+	}
+	desc := plan.Describe
+	plan.Describe = func(u int) string {
+		if u < nIso {
+			return "isolation seed " + iso[u]
+		}
+		return desc(u - nIso)
+	}
+	plan.Bounds["isolation_depth"] = depth
+	plan.Bounds["isolation_seeds"] = iso
+	plan.Assume = sweepAssume
+	plan.Replay = func(w *harness.W, c *harness.Case) {
+		if c.Mode == "history" {
+			bx.C10Isolation(w, c.Pattern, depth)
+			return
+		}
+		cx, ok := bx.NewCtx(w, c.Pattern, orFirst(c.Mode), true, false)
+		if !ok {
+			return
+		}
+		h := c.HayBytes()
+		body(cx, h, 0)
+		cx.Flush(h)
+	}
+	return plan
 }
